@@ -3,6 +3,7 @@ package ir
 import (
 	"go/token"
 	"go/types"
+	"strings"
 
 	"golang.org/x/tools/go/callgraph"
 	"golang.org/x/tools/go/ssa"
@@ -710,6 +711,9 @@ func (s *Slicer) readsIntoSlice(c ssa.CallInstruction) bool {
 	case "io.ReadFull", "io.ReadAtLeast", "builtin.copy", "crypto/rand.Read", "encoding/hex.Decode", "encoding/binary.Read",
 		"encoding/binary.LittleEndian.PutUint16", "encoding/binary.LittleEndian.PutUint32", "encoding/binary.LittleEndian.PutUint64",
 		"encoding/binary.BigEndian.PutUint16", "encoding/binary.BigEndian.PutUint32", "encoding/binary.BigEndian.PutUint64":
+		return true
+	}
+	if strings.HasPrefix(id, "encoding/binary.") && strings.Contains(id[strings.LastIndex(id, ".")+1:], "PutUint") {
 		return true
 	}
 	if cc := c.Common(); cc.IsInvoke() {
